@@ -7,7 +7,18 @@ import (
 	"strings"
 
 	"google.golang.org/protobuf/proto"
+	"google.golang.org/protobuf/reflect/protodesc"
+	"google.golang.org/protobuf/reflect/protoregistry"
 	"google.golang.org/protobuf/types/descriptorpb"
+
+	// the well-known types a corpus file may import (FileSpec.Ext)
+	_ "google.golang.org/protobuf/types/known/anypb"
+	_ "google.golang.org/protobuf/types/known/durationpb"
+	_ "google.golang.org/protobuf/types/known/emptypb"
+	_ "google.golang.org/protobuf/types/known/fieldmaskpb"
+	_ "google.golang.org/protobuf/types/known/structpb"
+	_ "google.golang.org/protobuf/types/known/timestamppb"
+	_ "google.golang.org/protobuf/types/known/wrapperspb"
 )
 
 // Runtime identifies a target flavour.
@@ -93,6 +104,18 @@ type FileSpec struct {
 	Only []Runtime
 	// Deps lists corpus files this file imports.
 	Deps []string
+	// Ext lists external .proto files (well-known types, taken from protobuf-go's global registry) this
+	// file imports; their message types have NO generated fast-marshal methods.
+	Ext []string
+}
+
+// ExtFile returns the descriptor of an external dependency.
+func ExtFile(path string) *descriptorpb.FileDescriptorProto {
+	f, err := protoregistry.GlobalFiles.FindFileByPath(path)
+	if err != nil {
+		panic("external corpus dependency " + path + ": " + err.Error())
+	}
+	return protodesc.ToFileDescriptorProto(f)
 }
 
 // For reports whether the file is part of the matrix of runtime rt.
@@ -115,6 +138,9 @@ type fb struct {
 
 // typeName resolves a local type name; "@file.Type" refers to a type of another corpus file of the same runtime.
 func (b *fb) typeName(local string) string {
+	if strings.HasPrefix(local, ".") { // absolute (external) type name
+		return local
+	}
 	if strings.HasPrefix(local, "@") {
 		parts := strings.SplitN(local[1:], ".", 2)
 		return "." + b.pkg[:strings.LastIndex(b.pkg, ".")] + "." + parts[0] + "." + parts[1]
@@ -474,6 +500,52 @@ func Files() []FileSpec {
 			m.field("oc", 7, Opt, kindByName("enum"), fopt{typeName: "@p2.Color", oneof: oi})
 			m.field("om", 8, Opt, kindByName("message"), fopt{typeName: "@p2.ReqChild", oneof: oi})
 		}})
+	wkt := func(n string) string { return ".google.protobuf." + n }
+	wktFiles := []string{"google/protobuf/timestamp.proto", "google/protobuf/duration.proto", "google/protobuf/wrappers.proto", "google/protobuf/any.proto",
+		"google/protobuf/field_mask.proto", "google/protobuf/empty.proto", "google/protobuf/struct.proto"}
+	out = append(out, FileSpec{Name: "p3wkt", Syntax: "proto3", Only: []Runtime{GV2, GV1}, Ext: wktFiles,
+		Cells: "proto3: well-known types (messages WITHOUT fast-marshal methods: nested encode/decode goes through the runtime) in singular, repeated, map-value and oneof positions; imported enum NullValue",
+		build: func(b *fb) {
+			m := b.msg("Wkt")
+			M := kindByName("message")
+			for i, n := range []string{"Timestamp", "Duration", "Int64Value", "StringValue", "BytesValue", "BoolValue", "DoubleValue", "UInt32Value", "FloatValue", "Any", "FieldMask", "Empty", "Struct", "Value", "ListValue"} {
+				m.field("f_"+strings.ToLower(n), int32(i+1), Opt, M, fopt{typeName: wkt(n)})
+			}
+			m.field("r_ts", 20, Rep, M, fopt{typeName: wkt("Timestamp")})
+			m.field("r_sv", 21, Rep, M, fopt{typeName: wkt("StringValue")})
+			m.mapField("m_ts", 22, kindByName("string"), M, wkt("Timestamp"))
+			m.mapField("m_any", 23, kindByName("int32"), M, wkt("Any"))
+			oi := m.oneofDecl("pick")
+			m.field("o_ts", 24, Opt, M, fopt{typeName: wkt("Timestamp"), oneof: oi})
+			m.field("o_d", 25, Opt, M, fopt{typeName: wkt("Duration"), oneof: oi})
+			m.field("o_s", 26, Opt, kindByName("string"), fopt{oneof: oi})
+			m.field("nv", 27, Opt, kindByName("enum"), fopt{typeName: wkt("NullValue")})
+			m.field("r_nv", 28, Rep, kindByName("enum"), fopt{typeName: wkt("NullValue")})
+			m.field("tail", 29, Opt, kindByName("int32"), fopt{})
+			h := b.msg("Holder") // a fast-marshal message between the root and the well-known type
+			h.field("w", 1, Opt, M, fopt{typeName: "Wkt"})
+			h.field("ws", 2, Rep, M, fopt{typeName: "Wkt"})
+			h.field("ts", 3, Opt, M, fopt{typeName: wkt("Timestamp")})
+		}})
+	out = append(out, FileSpec{Name: "p2wkt", Syntax: "proto2", Only: []Runtime{GV2, GV1}, Ext: []string{wktFiles[0], wktFiles[1], wktFiles[2], wktFiles[5], wktFiles[6]},
+		Cells: "proto2: required / optional / repeated well-known-type fields and an extension whose value is a well-known type",
+		build: func(b *fb) {
+			m := b.msg("Wkt2")
+			M := kindByName("message")
+			m.field("ts", 1, Req, M, fopt{typeName: wkt("Timestamp")})
+			m.field("d", 2, Opt, M, fopt{typeName: wkt("Duration")})
+			m.field("r", 3, Rep, M, fopt{typeName: wkt("Int32Value")})
+			m.field("n", 4, Opt, kindByName("int32"), fopt{})
+			x := b.msg("Extendable")
+			x.field("a", 1, Opt, kindByName("int32"), fopt{})
+			x.m.ExtensionRange = append(x.m.ExtensionRange, &descriptorpb.DescriptorProto_ExtensionRange{Start: proto.Int32(100), End: proto.Int32(200)})
+			sc := b.msg("Scope")
+			sc.m.Extension = append(sc.m.Extension, mkField(b, "x_ts", 100, Opt, M, fopt{typeName: wkt("Timestamp"), extendee: "Extendable"}))
+			sc.m.Extension = append(sc.m.Extension, mkField(b, "x_sv", 101, Opt, M, fopt{typeName: wkt("StringValue"), extendee: "Extendable"}))
+			// packages that NO regular field of the file refers to: only the extensions need the import
+			sc.m.Extension = append(sc.m.Extension, mkField(b, "x_em", 102, Opt, M, fopt{typeName: wkt("Empty"), extendee: "Extendable"}))
+			sc.m.Extension = append(sc.m.Extension, mkField(b, "x_nv", 103, Opt, kindByName("enum"), fopt{typeName: wkt("NullValue"), extendee: "Extendable"}))
+		}})
 	return out
 }
 
@@ -512,6 +584,7 @@ func Build(spec FileSpec, rt Runtime) *descriptorpb.FileDescriptorProto {
 		}
 		fd.Dependency = append(fd.Dependency, ProtoPath(ds, rt))
 	}
+	fd.Dependency = append(fd.Dependency, spec.Ext...)
 	spec.build(&fb{fd: fd, pkg: pkg})
 	return fd
 }
@@ -519,11 +592,28 @@ func Build(spec FileSpec, rt Runtime) *descriptorpb.FileDescriptorProto {
 // BuildWithDeps returns the file's dependencies (in dependency order) followed by the file itself.
 func BuildWithDeps(spec FileSpec, rt Runtime) []*descriptorpb.FileDescriptorProto {
 	var out []*descriptorpb.FileDescriptorProto
+	seen := map[string]bool{}
+	add := func(fds ...*descriptorpb.FileDescriptorProto) {
+		for _, f := range fds {
+			if !seen[f.GetName()] {
+				seen[f.GetName()] = true
+				out = append(out, f)
+			}
+		}
+	}
+	for _, e := range spec.Ext {
+		x := ExtFile(e)
+		for _, dd := range x.Dependency { // well-known types only import each other one level deep
+			add(ExtFile(dd))
+		}
+		add(x)
+	}
 	for _, d := range spec.Deps {
 		ds, _ := Spec(d)
-		out = append(out, BuildWithDeps(ds, rt)...)
+		add(BuildWithDeps(ds, rt)...)
 	}
-	return append(out, Build(spec, rt))
+	add(Build(spec, rt))
+	return out
 }
 
 // Spec finds a file spec by name.
